@@ -46,6 +46,28 @@ check_num = Fn(FT, "check_for_number", slot="syntax", ret="res", key="token::che
     inserts=[Insert("return Some((TokenKind::Number, walker.length));", "proof { let s = src@; let p1 = walker.pos@; assert forall|i: int| 1 <= i < p1 implies number_mid(#[trigger] s[i]) by { } lemma_run_end(s, |c: char| number_mid(c), 1, p1); }\n\t\t", where="before", occ=1),
              Insert("return Some((TokenKind::Number, walker.length));", "proof { let s = src@; let p1 = walker.pos@; assert forall|i: int| 2 <= i < p1 implies hex_mid(#[trigger] s[i]) by { } lemma_run_end(s, |c: char| hex_mid(c), 2, p1); }\n\t\t\t", where="before", occ=2),
              Insert("return Some((TokenKind::Number, walker.length));", "proof { let s = src@; let p1 = walker.pos@; assert forall|i: int| 2 <= i < p1 implies bin_mid(#[trigger] s[i]) by { } lemma_run_end(s, |c: char| bin_mid(c), 2, p1); }\n\t\t\t", where="before", occ=3)])
+consume_str = cw("consume_str", ret="res", props=["C05", "C07", "C03"],
+    requires=[C("wf", "old(self).wf()"), C("no_nul_in_the_wanted_text", "forall|k: int| 0 <= k < wanted@.len() ==> #[trigger] wanted@[k] != '\\0'")],
+    ensures=[C("takes_the_text_iff_it_stands_here", "final(self).wf() && %s && res == starts_with_at(old(self).src@, old(self).pos@, wanted@) && final(self).pos@ == (if res { old(self).pos@ + wanted@.len() } else { old(self).pos@ })" % SAME, ["C05", "C07"])],
+    for_to_while=[1],
+    loops={1: Loop(invariant=[
+        C("matched_so_far", "cloned.wf() && old(self).wf() && cloned.src == old(self).src && *self == *old(self) && verif_vec_1@ == wanted@ && verif_next_1 <= verif_vec_1@.len() && cloned.pos@ == old(self).pos@ + verif_next_1"
+          " && old(self).pos@ + verif_next_1 <= old(self).src@.len() && (forall|k: int| 0 <= k < verif_next_1 ==> old(self).src@[old(self).pos@ + k] == #[trigger] wanted@[k])"
+          " && (forall|k: int| 0 <= k < wanted@.len() ==> #[trigger] wanted@[k] != '\\0')"),
+    ], decreases="verif_vec_1@.len() - verif_next_1")},
+    inserts=[Insert("return false;", "proof { let k = verif_next_1 - 1; if old(self).pos@ + k < old(self).src@.len() { assert(old(self).src@[old(self).pos@ + k] != wanted@[k]); } }\n\t\t\t\t", where="before")],
+)
+check_comment = Fn(FT, "check_for_comment", slot="syntax", ret="res", key="token::check_for_comment", props=["C07", "C05", "C03"],
+    attrs=["#[verifier::exec_allows_no_decreases_clause]"],
+    ensures=[C("line_comment_or_nested_block_comment", "res == comment_token(src@)", ["C07", "C05"])],
+    rewrites=[Rewrite("let mut nesting = 0;", "let mut nesting: usize = 0;", rule="R10", why="type ascription")],
+    inserts=[Insert("{", "\n\tproof { reveal_strlit(\";*\"); reveal_strlit(\"*;\"); if src@.len() >= 1 { lemma_find_bounds(src@, '\\n', 1); } }\n", where="after", occ=1)],
+    loops={1: Loop(invariant_except_break=[
+        C("scan", "2 <= walker.pos@ && nesting + 2 <= walker.pos@ && block_end(src@, walker.pos@, nesting as nat) == block_end(src@, 2, 0)"),
+    ], invariant=[C("cursor", "walker.wf() && walker.src@ == src@")],
+       ensures=[C("the_end_of_the_comment", "walker.pos@ == block_end(src@, 2, 0)")],
+       body_start=" proof { reveal_strlit(\";*\"); reveal_strlit(\"*;\"); lemma_boff_ge(src@, walker.pos@); }")},
+)
 check_string = Fn(FT, "check_for_string", slot="syntax", ret="res", key="token::check_for_string", props=["C05", "C03"],
     attrs=["#[verifier::exec_allows_no_decreases_clause]"],   # termination is not claimed; a loop added to the function is then decided on its merits
 
@@ -59,9 +81,9 @@ UNIT = Unit(
         Type(FT, "struct", "CharWalker", slot="syntax", derive="drop",
              rewrites=[Rewrite("pub char_indices: std::str::CharIndices<'a>,", "pub pos: Ghost<int>,", rule="R40",
                                why="the `CharIndices` iterator field (external type) -> a ghost character position; only the ASSUMED stubs `new`/`advance` touch it")]),
-        cw_new, cw_advance, cw_ended, consume_char, consume_until, consume_if, consume_while] + preds + [check_ws, check_num, check_string,
+        cw_new, cw_advance, cw_ended, consume_char, consume_until, consume_if, consume_while, consume_str] + preds + [check_ws, check_num, check_comment, check_string,
     ],
-    serves=["C05", "C03"],
+    serves=["C05", "C07", "C03"],
     carry_facts_into_loops=False,
     description="syntax::token: the tokenizer's character cursor and the string-literal rule (a quote to the next quote)",
 )
